@@ -350,7 +350,9 @@ def run(ck):
     terms, meta = [], []
     nsample = 0
     worst = {"float": 0.0, "fd_beta": 0.0, "fd_strain": 0.0}
-    for label, crys, chem in gen.pool(rng, ncases, random_frac=0.5, maxatoms=3):
+    # named lattices, with the polar / low-symmetry ones (non-empty vector basis: the correlated path) over-represented
+    names = gen.NAMES2 + gen.NAMES3 + ["polar", "polar2w", "rect-polar2d", "oblique2d", "hcp-oct-tet", "bcc-tet", "polar", "rect-polar2d"]
+    for label, crys, chem in gen.pool(rng, ncases, names=names, random_frac=0.45, maxatoms=3):
         try:
             net = gen.percolating_network(crys, chem, rng, maxjumps=40)
         except Exception:
@@ -397,7 +399,7 @@ def run(ck):
         # ---- float envelope, strain (all components), FD on a subset
         pmax = max(max(np.abs(np.array(P)).max() for P in list(inp["dipole"]) + list(inp["dipoleT"])), 1.0)
         cutmid = midpoint_cut(crys, chem, cut) if nfd_strain > 0 else None
-        do_fd = cutmid is not None and nfd_strain > 0 and nj <= 30
+        do_fd = cutmid is not None and nfd_strain > 0 and nj <= 30 and (d.NV > 0 or rng.random() < 0.4)
         if nfd_strain > 0 and cutmid is None: skipped["fd-strain-no-gap"] += 1
         if do_fd: nfd_strain -= 1
         for (c0, d0, e) in unit_strains(dim):
